@@ -8,7 +8,7 @@ import dbutil
 from props.c20 import build_index, wire_index, canon
 
 PROPS = ('GambitV.Props.C12', 'GambitV.C12')
-TIE = [('GambitV.Tie.PyHdf5', 'GambitV.Tie.Py'), ('GambitV.Tie.PyConcat', 'GambitV.Tie.Py'), ('GambitV.Tie.PyGetitem', 'GambitV.Tie.Py'), ('GambitV.Tie.PyClassFacts', 'GambitV.Tie.Py'), ('GambitV.Tie.PyHdf5Reader', 'GambitV.Tie.Py'), ('GambitV.Tie.PyHdf5Meta', 'GambitV.Tie.Py'), ('GambitV.Tie.PyMetaRules', 'GambitV.Tie.Py')]
+TIE = [('GambitV.Tie.PyHdf5', 'GambitV.Tie.Py'), ('GambitV.Tie.PyConcat', 'GambitV.Tie.Py'), ('GambitV.Tie.PyGetitem', 'GambitV.Tie.Py'), ('GambitV.Tie.PyClassFacts', 'GambitV.Tie.Py'), ('GambitV.Tie.PyHdf5Reader', 'GambitV.Tie.Py'), ('GambitV.Tie.PyHdf5Meta', 'GambitV.Tie.Py'), ('GambitV.Tie.PyMetaRules', 'GambitV.Tie.Py'), ('GambitV.Tie.PySigArrayInit', 'GambitV.Tie.Py'), ('GambitV.Tie.PySigClasses', 'GambitV.Tie.Py')]
 RULE = ('(collection of >= 1 signatures incl. empty ones, k in 1..32 with the matching index width, container in {SignatureArray, SignatureList, '
         'AnnotatedSignatures wrapper}, ID kind in {default range, str list, int list, NumPy U / S / object / int arrays}, Unicode metadata with nested '
         'extra data or None fields, compression in {none, gzip(level), lzf}). dump_signatures -> raw datasets read with h5py (vs the Lean store model) '
